@@ -14,6 +14,7 @@ HASHER = re.compile(r"^(KSI_DataHasher_(add|reset|open|close|addImprint|addOctet
 
 
 def run(prog, chk):
+    chain_list_table(prog, chk)
     chk.explanation = (
         "hashchain.c: (R3a) no error status stored into the status variable is overwritten before it can be observed; (R6) aggregateChain is evaluated abstractly for one link with every combination "
         "of link direction x calendar/aggregation x in-range / out-of-range level correction and start level: hashing order "
@@ -245,3 +246,66 @@ def run(prog, chk):
                ("shape impossible for the publication time must give KSI_INVALID_FORMAT without a result" if want_err else
                 "consistent shape gives the sum of the right-link powers") + "; source returns %s, stores %s" % (q.ret, [s[2] for s in st]),
                loc=ft.loc(), fn=ft)
+
+
+def chain_list_table(prog, chk):
+    """KSI_AggregationHashChainList_aggregate folds the chains of a signature: every chain starts at the level the previous one ended
+    at (the first at the caller's level), the result is the last chain's output, intermediate outputs are released, a failing chain
+    ends the fold with its error, and a start level outside 0..255 is refused.  Evaluated over 1..3 chains with a per-chain level
+    step."""
+    from ksirules.interp import TOP, Interp, Ptr, list_overrides, succeed_model
+    from ksirules.model import AnalysisBroken, lvalue_key, strip
+    chk.rule("C03.list", "chain list: each chain starts at the previous chain's output level; result = last output; a failure ends the fold (decision table)", floor=8)
+    fn = prog.fn("KSI_AggregationHashChainList_aggregate", "hashchain.c")
+    lp_, cp, vp, op = [p["n"] for p in fn.params]
+    for n, start, failing in ((1, 0, None), (2, 0, None), (3, 7, None), (2, 250, None), (2, 0, 1), (3, 0, 0), (3, 0, 2), (1, 256, None), (1, -1, None), (0, 0, None)):
+        calls, freed = [], []
+        steps = [3, 5, 11]
+        length, element_at = list_overrides({"LIST": [Ptr("CH%d" % k) for k in range(n)]})
+
+        def aggregate(I, p, node, args):
+            w = getattr(args[0], "what", "")
+            if not w.startswith("CH") or not isinstance(args[1], int):
+                return TOP
+            k = int(w[2:])
+            calls.append((k, args[1]))
+            if failing == k:
+                return 0x20b
+            a2, a3 = strip(node["a"][2]), strip(node["a"][3])
+            if isinstance(a2, dict) and a2.get("k") == "un":
+                I.write(p, I.canon(p, lvalue_key(a2["e"], I.fn)), args[1] + steps[k])
+            I.write(p, I.canon(p, lvalue_key(a3["e"], I.fn)), Ptr("OUT%d" % k))
+            return 0
+        ov = {"KSI_AggregationHashChainList_length": length, "KSI_AggregationHashChainList_elementAt": element_at, "KSI_AggregationHashChain_aggregate": aggregate,
+              "KSI_DataHash_free": lambda I, p, node, a: ((freed.append(a[0]) if a[0] != 0 else None), TOP)[1]}
+        inputs = {lp_: Ptr("LIST"), cp: Ptr("ctx"), vp: start, op: Ptr("RESULT")}
+        I = Interp(fn, inputs=inputs, call_model=succeed_model(prog, ov), on_unknown="stop", prog=prog, loop_bound=n + 3)
+        paths = I.run()
+        chk.paths += len(paths)
+        inst = "chain list[%d chain(s), start level %d%s]" % (n, start, "" if failing is None else ", chain %d fails" % (failing + 1))
+        if len(paths) != 1 or paths[0].undetermined or paths[0].ret is TOP:
+            raise AnalysisBroken("KSI_AggregationHashChainList_aggregate: evaluation not determined for %s: %s" % (inst, [q.undetermined[:1] for q in paths]))
+        q = paths[0]
+        out = [t[2] for t in q.stores("*" + op)] + [t[2] for t in q.stores("RESULT")]
+        handed = [v for v in out if v not in (0, None)]
+        if not (0 <= start <= 255):
+            ok = q.ret != 0 and not calls and not handed
+            what = "expected a refusal before any chain is touched; source: status %s, chains aggregated %s" % (hex(q.ret) if isinstance(q.ret, int) else q.ret, calls)
+        elif failing is not None:
+            want_calls, lvl = [], start
+            for k in range(failing + 1):
+                want_calls.append((k, lvl))
+                lvl += steps[k]
+            ok = q.ret == 0x20b and calls == want_calls and not handed and sorted(map(str, freed)) == sorted(str(Ptr("OUT%d" % k)) for k in range(failing))
+            what = "expected the chain's error, chains %s aggregated, nothing handed out, every output made so far released once; source: status %s, calls %s, handed out %s, released %s" % (
+                want_calls, hex(q.ret) if isinstance(q.ret, int) else q.ret, calls, handed, freed)
+        else:
+            want_calls, lvl = [], start
+            for k in range(n):
+                want_calls.append((k, lvl))
+                lvl += steps[k]
+            ok = q.ret == 0 and calls == want_calls and (handed[-1:] == [Ptr("OUT%d" % (n - 1))] if n else not handed) and \
+                sorted(map(str, freed)) == sorted(str(Ptr("OUT%d" % k)) for k in range(n - 1))
+            what = "expected KSI_OK, (chain, start level) = %s, the last output handed out, the others released once; source: status %s, calls %s, handed out %s, released %s" % (
+                want_calls, q.ret, calls, handed, freed)
+        chk.ob("C03.list", inst, ok, what, loc=fn.loc(), fn=fn)
